@@ -110,7 +110,10 @@ def run_case(pid, cid, case, tier, seed):
     spec = PROPS[pid]
     out = []
     case = dict(case, _cid=cid)
+    imports = any(h.get('a') == 'EditImport' for h in case.get('hist', []))
     for k, nm in namings_for(pid, tier, seed, cid):
+        if imports and set(nm.classes) & {'casepair', 'afmcase'}:
+            continue      # import_model compares constraints by their text without letter case: not what ImportF models
         events, extra = spec['script'](case, nm, tier, seed)
         if events:
             out.append(mk_trace(pid, cid, k, case, nm, events, extra))
